@@ -233,6 +233,25 @@ def gen_cases(rng, thorough):
             rng.shuffle(ins2)
             outs2 = list(outs)
         cases.append({"ev": "Equiv", "a": chars(struct_text(ins, outs)), "b": chars(struct_text(ins2, outs2)), "kind": kind})
+    # merging exactly two names that live on ONE side only (two output-only names, two input-only names) or one per side
+    for _ in range(1500 if thorough else 250):
+        n1, n2, n3 = rng.sample(["X", "Y", "Z", "lon", "k"], 3)
+        where = rng.choice(["out", "out", "in", "across"])
+        if where == "out":
+            ins = [[(n1, rng.choice(POS))] for _ in range(rng.randint(0, 2))] or [[]]
+            outs = rng.choice([[[(n2, rng.choice(POS))], [(n3, rng.choice(POS))]], [[(n2, rng.choice(POS)), (n3, rng.choice(POS))]]])
+        elif where == "in":
+            ins = rng.choice([[[(n2, rng.choice(POS))], [(n3, rng.choice(POS))]], [[(n2, rng.choice(POS)), (n3, rng.choice(POS))]]])
+            outs = [[(n1, rng.choice(POS))]] if rng.random() < 0.5 else [[]]
+        else:
+            ins, outs = [[(n2, rng.choice(POS))]], [[(n3, rng.choice(POS))]]
+        m = {n1: n1, n2: n2, n3: n2}
+        ins2 = [[(m[n], p) for n, p in a] for a in ins]
+        outs2 = [[(m[n], p) for n, p in a] for a in outs]
+        pair = [struct_text(ins, outs), struct_text(ins2, outs2)]
+        if rng.random() < 0.5:
+            pair.reverse()
+        cases.append({"ev": "Equiv", "a": chars(pair[0]), "b": chars(pair[1]), "kind": "merge"})
     # type hints
     for _ in range(1500 if thorough else 250):
         ins, outs = rand_struct(rng)
